@@ -227,7 +227,15 @@ func Thorough() bool { load(); return rf.Tier == "thorough" || os.Getenv("VERIF_
 func ClockSymbolic(maxStep int64) {}
 
 // Advance moves the harness clock forward by d nanoseconds.
-func Advance(d int64) { mu.Lock(); clock += d; mu.Unlock() }
+func Advance(d int64) { mu.Lock(); clock += d; advanced += d; mu.Unlock() }
+
+var advanced int64
+
+// Advanced is the total passed to Advance so far when run natively; under the engine it is
+// 0 because Advance moves the model clock that time.Now reads. A harness that needs the code
+// under test to see advanced time natively installs: sop.Now = func() time.Time {
+// return time.Now().Add(time.Duration(zzvf.Advanced())) }.
+func Advanced() int64 { mu.Lock(); defer mu.Unlock(); return advanced }
 
 // NowNanos is the harness clock (nanoseconds); monotone.
 func NowNanos() int64 {
